@@ -141,6 +141,7 @@ def families(tier: str):
         (lambda: [[small(0), small(1)]], 2),
         (lambda: [[small(0)], [big(1)]], 2),
         (lambda: [[small(0), wpath.Broken(), small(2)]], 2),
+        (lambda: [[small(0), wpath.broken_typed(), small(2)]], 1),
     ]
     if tier != "quick":
         fams += [
@@ -189,7 +190,7 @@ def run(res: Result, tier: str, seed: int):
         def fam():
             per = [[] for _ in range(nthr)]
             for i in range(n):
-                m = wpath.Broken() if rng.random() < 0.1 else wpath.make_message(i, rng.choice([0, 0, 10, 80]))
+                m = (wpath.Broken() if rng.random() < 0.5 else wpath.broken_typed()) if rng.random() < 0.1 else wpath.make_message(i, rng.choice([0, 0, 10, 80]))
                 per[rng.randrange(nthr)].append(m)
             return [p for p in per if p] or [[wpath.make_message(0)]]
         script = [rng.choice([1, 2, 3, 7, 20, 50, "all", "soft", "intr", "nobufs"]) for _ in range(rng.randrange(0, 8))]
@@ -229,4 +230,11 @@ def signature(f: dict):
 def search(res: Result, seed: int, broken) -> list:
     r2 = Result(PROP, "thorough", seed)
     fails, _ = run(r2, "search", seed + 1)
+    if not fails:
+        # one level finer: a line `buf += encode()` loads buf, encodes, stores -- preemptions between the load and the call
+        wpath.FINE = True
+        try:
+            fails, _ = run(r2, "search", seed + 2)
+        finally:
+            wpath.FINE = False
     return fails[:3]
